@@ -270,7 +270,12 @@ pub fn run_c18(p: &Params) -> Outcome {
         let idx = if rng.chance(1, 6) { len + rng.below(3) } else { rng.below(len + 1) };
         let plen = if rng.chance(1, 2) { rng.below(10) } else { rng.below(150) };
         let payload: Vec<u32> = (0..plen).map(|_| rng.below(50) as u32).collect();
+        let vec0 = shaped(&mut rng, &v);
+        // now and then the payload is the target's own clone (same allocation), as in `ob.append((*ob).clone())`
+        let alias = rng.chance(1, 5);
         let d = match rng.below(14) {
+            0..=3 if alias => VectorDiff::Append { values: vec0.clone() },
+            13 if alias => VectorDiff::Reset { values: vec0.clone() },
             0..=3 => VectorDiff::Append { values: shaped(&mut rng, &payload) },
             4 => VectorDiff::Clear,
             5 => VectorDiff::PushFront { value: val },
@@ -284,7 +289,6 @@ pub fn run_c18(p: &Params) -> Outcome {
             _ => VectorDiff::Reset { values: shaped(&mut rng, &payload) },
         };
         let case = json!({"gen": gen3, "case": i, "seed": seed});
-        let vec0 = shaped(&mut rng, &v);
         check_one_on(&v, vec0, &d, out, &case);
     }));
     out
